@@ -17,6 +17,7 @@ static double PREC_K_D = 64, PREC_K_L = 64;   // C09 constants (calibrated, see 
 struct MaxStat { double max = 0; long n = 0; std::string where; };
 static std::map<std::string, MaxStat> g_ratio;     // "<sol>|<ev>|<prec>" -> max |lib-ref|/(u e)
 static std::map<std::string, MaxStat> g_dl;        // double vs long double
+static long g_ref_nonfinite = 0;
 static long g_fd = 0; static bool fd_check = true;
 static long g_cbchecks = 0, g_invchecks = 0;
 static long g_cmp = 0, g_skipped_branch = 0, g_nonfinite = 0, g_known = 0, g_dlcmp = 0, g_badidx = 0;
@@ -64,6 +65,9 @@ static void run_solution(const orc::Sol& sol, const SolSpec& spec, uint64_t seed
     Rng r(seed, strhash(sol.name) * 1000003ULL + (uint64_t)cs * 2 + (sizeof(S) == 8 ? 0 : 1));
     orc::Draw dr;
     sol.draw(r, dr, names);
+    // a quarter of the vectors carry special values (exactly 0, +-1, a small integer, two parameters equal) where admissible
+    std::string special;
+    if (r.below(4) == 0) { orc::specialise(r, sol, dr, names, special); if (!special.empty()) LOG.count("parameter_vectors_with_special_values", 1); }
     for (auto& n : names) if (!dr.v.count(n)) harness_fail("generator for " + sol.name + " did not draw parameter " + n);
     std::map<std::string, long double> setv;
     orc::Ctx base; base.sol = sol.name; base.nx = sol.nargs;
@@ -86,6 +90,8 @@ static void run_solution(const orc::Sol& sol, const SolSpec& spec, uint64_t seed
     for (int pt = 0; pt < npoints; pt++) {
       long double xs[4] = {0, 0, 0, 0};
       sol.point(r, xs, sol.nargs);
+      // structured points: a coordinate exactly 0 (axes, t = 0) where the domain allows it
+      if (sol.zero_coord_from >= 0 && r.below(6) == 0) { int ci = sol.zero_coord_from + r.below(std::max(1, sol.nargs - sol.zero_coord_from)); if (ci < sol.nargs) { xs[ci] = 0; LOG.count("points_on_an_axis", 1); } }
       if (pt == 0 && have_prev) for (int i = 0; i < 4; i++) xs[i] = prev_pt[i];   // same point, new parameters
       for (int i = 0; i < 4; i++) prev_pt[i] = xs[i];
       have_prev = true;
@@ -105,6 +111,8 @@ static void run_solution(const orc::Sol& sol, const SolSpec& spec, uint64_t seed
           auto it = c.out.find(rid);
           if (it == c.out.end() || !it->second.has) harness_fail("oracle for " + sol.name + " gives no reference for " + rid);
           const orc::Ref& ref = it->second;
+          // a reference that is itself not finite means the drawn input is outside the admissible set (generator slip): never judged
+          if (!finiteq(ref.ref.v) || !std::isfinite(ref.ref.e)) { g_ref_nonfinite++; continue; }
           set_ctx("eval:" + sol.name + ":" + e.id, "masa_eval_" + e.name + "<" + P + "> on " + sol.name + " at " + point_json(xs, sol.nargs));
           if (e.kind == KF) orc::chem_rec_reset();
           CAP.begin();
@@ -285,6 +293,7 @@ int main(int argc, char** argv) {
   LOG.count("callback_argument_checks", g_cbchecks);
   LOG.count("mass_sum_invariant_checks", g_invchecks);
   LOG.count("skipped_near_branch", g_skipped_branch);
+  LOG.count("skipped_reference_not_finite", g_ref_nonfinite);
   LOG.count("nonfinite", g_nonfinite);
   LOG.count("matched_known_deviation", g_known);
   for (auto& kv : g_ratio) LOG.stat("ratio", JObj().str("k", kv.first).num("max", kv.second.max).num("n", kv.second.n).done());
